@@ -186,7 +186,7 @@ Bin3(st, ins, f(_, _), ty, name) ==
       b == RdV(st, r2)  s1 == RdS(st, r2)
       a == RdV(s1, r1)  s2 == RdS(s1, r1)
       term == App(name, <<a, b>>)
-  IN IF ty = "any" THEN Fin(s2, d, POpen, term, FALSE)
+  IN IF ty = "any" THEN Fin(s2, d, POpen, term, IsConc(a) /\ IsConc(b))
      ELSE IF a.t = ty /\ b.t = ty THEN Fin(s2, d, f(a.v, b.v), term, TRUE)
      ELSE IF IsConc(a) /\ IsConc(b) THEN Fail(s2, "wrongtype")
      ELSE Fin(s2, d, POpen, term, FALSE)
@@ -202,7 +202,9 @@ Un2(st, ins, f(_), ty, name) ==
   LET d == ins.args[1]  r == ins.args[2]
       a == RdV(st, r)  s1 == RdS(st, r)
       term == App(name, <<a>>)
-  IN IF ty = "any" THEN Fin(s1, d, POpen, term, FALSE)
+  \* (an operation the model does not interpret, applied to a concrete operand, is an unevaluated result: a run that
+  \*  contains one is not "fully evaluated" and can never be a witness against a rewrite)
+  IN IF ty = "any" THEN Fin(s1, d, POpen, term, IsConc(a))
      ELSE IF a.t = ty THEN Fin(s1, d, f(a.v), term, TRUE)
      ELSE IF IsConc(a) THEN Fail(s1, "wrongtype")
      ELSE Fin(s1, d, POpen, term, FALSE)
